@@ -32,6 +32,10 @@ pub struct Case {
     pub offers: Vec<(u64, Vec<usize>)>,
     /// true: all timers are scheduled at start; false: each timer schedules the next
     pub timers_upfront: bool,
+    /// the connect call is issued from the receiving gate (the sending direction then uses the other of the two
+    /// channel instances a connection holds)
+    #[serde(default)]
+    pub reverse_connect: bool,
 }
 
 impl Case {
@@ -102,6 +106,12 @@ struct Tx {
 
 impl Tx {
     fn fire(&mut self, idx: usize) {
+        // chained timers: with `reverse_connect` the next timer is armed before the burst is offered, otherwise after it
+        let chain_next = !self.case.timers_upfront && idx + 1 < self.case.offers.len();
+        if chain_next && self.case.reverse_connect {
+            let t = self.case.offers[idx + 1].0;
+            schedule_at(Message::default().kind(TIMER).id((idx + 1) as u16), SimTime::from_duration(Duration::from_nanos(t)));
+        }
         let sizes = self.case.offers[idx].1.clone();
         let gate = current().gate("out", 0).expect("gate out");
         let ch = gate.channel().expect("channel on out");
@@ -131,7 +141,7 @@ impl Tx {
             });
             let _ = fin_after;
         }
-        if !self.case.timers_upfront && idx + 1 < self.case.offers.len() {
+        if chain_next && !self.case.reverse_connect {
             let t = self.case.offers[idx + 1].0;
             schedule_at(Message::default().kind(TIMER).id((idx + 1) as u16), SimTime::from_duration(Duration::from_nanos(t)));
         }
@@ -201,7 +211,11 @@ pub fn execute(case: &Case, seed: u64) -> Observed {
                 Policy::Queue(l) => ChannelDropBehaviour::Queue(l),
             },
         );
-        out.connect(inp, Some(Channel::new(metrics)));
+        if case.reverse_connect {
+            inp.connect(out, Some(Channel::new(metrics)));
+        } else {
+            out.connect(inp, Some(Channel::new(metrics)));
+        }
         #[allow(unused_mut)]
         let mut b = Builder::seeded(seed).quiet();
         #[cfg(feature = "cq")]
@@ -593,7 +607,7 @@ pub fn gen_case(rng: &mut Rng) -> Case {
         offers.push((t, sizes));
         t = t.saturating_add(gap.max(1)).min(u64::MAX / 4);
     }
-    Case { bitrate, latency_ns, jitter_ns, policy, offers, timers_upfront: rng.chance(1, 2) }
+    Case { bitrate, latency_ns, jitter_ns, policy, offers, timers_upfront: rng.chance(1, 2), reverse_connect: rng.chance(1, 2) }
 }
 
 fn case_hash(c: &Case) -> u64 {
@@ -626,6 +640,7 @@ fn grid_cases() -> Vec<Case> {
                             policy: Policy::Queue(Some(limit as usize)),
                             offers: vec![(0, vec![body; burst]), (tx_ns(len, bitrate).max(1) * 20, vec![body; 2])],
                             timers_upfront: true,
+                            reverse_connect: burst % 2 == 0,
                         });
                     }
                 }
@@ -638,7 +653,7 @@ fn grid_cases() -> Vec<Case> {
 pub fn cmd(args: &Args) -> Report {
     let mut rep = Report::new("C07");
     let mut rng = Rng::new(args.stream_seed("c07"));
-    let cases = args.cases(120_000, 2_500_000);
+    let cases = args.cases(600_000, 10_000_000);
     let mut queue: Vec<Case> = Vec::new();
     if args.budget.is_none() {
         // the enumerated boundary grid is split over the shards
